@@ -96,11 +96,37 @@ TDelCur ==
        /\ viol' = viol \cup V(E.res = (IF ok THEN "ok" ELSE "cas"), "ConditionExactly")
     /\ UNCHANGED its
 
-TNext == TReset \/ TCommit \/ TGet \/ TDel \/ TIterOpen \/ TIterNext \/ TIterDrain \/ TDelCur
+\* two batches committed in parallel (StorageRace.tla): the recorded results and final contents must be what
+\* running them one after the other gives, in one of the two orders; a batch the engine refused with an
+\* error other than a failed condition (a transaction conflict on an optimistic engine) must have had no effect
+RK == {2, 4}
+MapOf(r) == [k \in RK |-> r[ToString(k)]]
+OpOf(o) == [o |-> o.o, k |-> o.k, v |-> o.v, old |-> o.old]
+Serial(m, x, y) ==
+    LET hx == CondHolds(m, x)  m1 == IF hx THEN Effect(m, x) ELSE m
+        hy == CondHolds(m1, y) m2 == IF hy THEN Effect(m1, y) ELSE m1 IN
+    [rx |-> IF hx THEN "ok" ELSE "cas", ry |-> IF hy THEN "ok" ELSE "cas", m |-> m2]
+Alone(m, x) == LET h == CondHolds(m, x) IN [r |-> IF h THEN "ok" ELSE "cas", m |-> IF h THEN Effect(m, x) ELSE m]
+Explained(m0, a, b, ra, rb, m) ==
+    \/ LET s == Serial(m0, a, b) IN s.rx = ra /\ s.ry = rb /\ s.m = m
+    \/ LET s == Serial(m0, b, a) IN s.rx = rb /\ s.ry = ra /\ s.m = m
+    \/ (ra = "err" /\ rb \in {"ok", "cas"} /\ Alone(m0, b).r = rb /\ Alone(m0, b).m = m)
+    \/ (rb = "err" /\ ra \in {"ok", "cas"} /\ Alone(m0, a).r = ra /\ Alone(m0, a).m = m)
+    \/ (ra = "err" /\ rb = "err" /\ m = m0)
+    \* an optimistic engine may report the write-write conflict of the losing batch as a failed condition
+    \/ (a.k = b.k /\ ra = "ok" /\ rb = "cas" /\ CondHolds(m0, a) /\ m = Effect(m0, a))
+    \/ (a.k = b.k /\ rb = "ok" /\ ra = "cas" /\ CondHolds(m0, b) /\ m = Effect(m0, b))
+TRace ==
+    /\ Is("SRace") /\ l' = l + 1
+    /\ viol' = viol \cup V(Explained(MapOf(E.init), OpOf(E.a), OpOf(E.b), E.ra, E.rb, MapOf(E.final)), "BatchesSerializable")
+    /\ UNCHANGED <<kv, its>>
+
+TNext == TRace \/ TReset \/ TCommit \/ TGet \/ TDel \/ TIterOpen \/ TIterNext \/ TIterDrain \/ TDelCur
 TSpec == TInit /\ [][TNext]_vars
 TraceAccepted == TLCGet("stats").diameter - 1 = Len(Trace)
 NoViol(name) == \A v \in viol : v[1] # name
 M_ConditionExactly   == NoViol("ConditionExactly")
+M_BatchesSerializable == NoViol("BatchesSerializable")
 M_GetReturnsStored   == NoViol("GetReturnsStored")
 M_DelUnconditional   == NoViol("DelUnconditional")
 M_IterOpens          == NoViol("IterOpens")
